@@ -10,6 +10,8 @@
 //           adj entry        :  adj <solved> <algorithm_> adot <rows> <cols> ls <null|env|gso|svd|chol> | <state of *least_squares>
 //                               (adot: shape of the dense work matrix A_dot, which outlives solver objects and data sets)
 //   info <alg>   facts for the Lean driver, computed on a separate fresh object: info <alg> <n> <nullity>
+//                (round 6, solver entry chol/gso/svd: <n> = columns of the matrix the REAL object holds (AdjBaseFull::pA),
+//                <nullity> = its defect(); the driver computes both from the numeric model and refuses the line otherwise)
 //   rows    adj entry: rows <m> {<k> c1..ck}   (sparse rows of A: Adj::q_bb walks them)
 // Real code in-process, under ASan/UBSan.
 //
@@ -96,6 +98,11 @@ struct GamaVerifProbe {
       out << " " << (eq ? 1 : 0);
     } else out << " -";
     out << " minV " << (s.minV.rows() > 0 ? 1 : 0);
+  }
+  // number of unknowns as the real full-matrix solver object sees it
+  static int full_unknowns(const Base* b, int dflt) {
+    if (auto* f = dynamic_cast<const AdjBaseFull<double, int, MVE>*>(b)) return f->pA ? int(f->pA->cols()) : -1;
+    return dflt;
   }
   static bool solver_state(const Base* b, std::ostream& out) {
     if (auto* e = dynamic_cast<const Env*>(b)) { env_state(*e, out); return true; }
@@ -356,7 +363,8 @@ int main() {
         if (!F.create(&Pc, a, e)) { std::cout << "bad-op\n"; continue; }
         try {
           int d = e == "adj" ? F.adj->defect() : F.ls->defect();
-          std::cout << "info " << a << " " << O->P->n << " " << d << "\n";
+          int nn = e == "adj" ? O->P->n : GamaVerifProbe::full_unknowns(F.ls.get(), O->P->n);
+          std::cout << "info " << a << " " << nn << " " << d << "\n";
         }
         catch (const MVE& ex) { std::cout << "throw " << kind(ex.error()) << "\n"; }
         catch (const GNU_gama::Exception::adjustment& ex) { std::cout << "throw adjustment\n"; }
